@@ -819,6 +819,7 @@ def gen_faults(seed: int, plan: dict, res0: dict):
     if not cands:
         return []
     nf = cfg.weighted([(1, 5), (2, 3), (3, 2), (5, 1)])
+    double = cfg.chance(0.3)
     faults, used = [], set()
     for _ in range(nf * 4):
         if len(faults) >= nf:
@@ -829,7 +830,10 @@ def gen_faults(seed: int, plan: dict, res0: dict):
             i, n, sk, total = rng.choice(inflight or cands)
         else:
             i, n, sk, total = rng.choice(cands)
-        if (i, n) in used or any(f["op"] == i for f in faults):
+        same_op = [f for f in faults if f["op"] == i]
+        # usually one fault per operation; sometimes a second, later one in the same operation
+        # (what error handling and clean-up code meets: the retry or the clean-up fails as well)
+        if (i, n) in used or (same_op and (len(same_op) >= 2 or not double or any(f["kind"] == "crash" for f in same_op))):
             continue
         used.add((i, n))
         pick = rng.weighted([(k, weights[k]) for k in sorted(kinds_enabled)])
